@@ -583,6 +583,12 @@ static void op_note_wait (op_t *o) {
 	nsim_op_begin ("nsync_note_wait");
 	r = nsync_note_wait (W.note[n], dl_time (dl_ns));
 	if (nsim_op_sleeps () > 0) nsim_probe (PR_BLOCKED);
+	/* a waiter must be released by the notification, not merely find the note notified when its own timer fires: every
+	   notify posts its waiters before it returns, so once nothing is in flight (settled) no waiter can still be asleep */
+	if (r && NM[n].settled_ns >= 0 && nsim_op_last_timer_wake_ns () > NM[n].settled_ns) {
+		VIOL ("C08", "released-only-by-own-timer", "nsync_note_wait(%d) reports the note notified but the waiter slept until its own timer fired, %lld ns after "
+		      "every notification of the note and its ancestors had returned", n, (long long) (nsim_op_last_timer_wake_ns () - NM[n].settled_ns));
+	}
 	nsim_op_end ();
 	if (!r) {
 		if (dl_ns < 0) VIOL ("C08", "note-wait-timeout-without-deadline", "nsync_note_wait(%d, no deadline) returned 0", n);
@@ -771,6 +777,10 @@ static void op_ctr_wait (op_t *o) {
 	}
 	if (nsim_op_sleeps () > 0) { nsim_probe (PR_BLOCKED); nsim_probe (PR_CTR_ZERO_WAITERS); }
 	/* (with the note scanned first, nsync_wait_n may briefly queue for the note's internal mutex against other callers: not the counter's doing) */
+	if (r == 0 && CM[c].zero_ns >= 0 && nsim_op_last_timer_wake_ns () > CM[c].zero_ns) {
+		VIOL ("C10", "released-only-by-own-timer", "a counter wait reports zero but the waiter slept until its own timer fired, %lld ns after the add that "
+		      "produced zero had returned (it releases every waiter before it returns)", (long long) (nsim_op_last_timer_wake_ns () - CM[c].zero_ns));
+	}
 	if (zero_before && nsim_op_sleeps () > 0 && !(o->a[2] == 2 && S.nnote > 0)) {
 		VIOL ("C10", "wait-after-zero-blocked", "nsync_counter_wait started after an add had returned 0 but slept %d times", nsim_op_sleeps ());
 	}
